@@ -422,7 +422,9 @@ func (x *fnCtx) checkPost(st *State, fr *Frame, res []*Val) {
 		names[fmt.Sprintf("result%d", i)] = nameBind{v: r}
 	}
 	if len(res) == 1 {
-		names["result"] = nameBind{v: res[0]}
+		if _, taken := names["result"]; !taken {
+			names["result"] = nameBind{v: res[0]}
+		}
 	}
 	for k, v := range st.ghost {
 		if !strings.HasPrefix(k, "$") {
